@@ -40,20 +40,12 @@ Tactic Notation "dalloc" hyp(H) "as" ident(h) ident(l) ident(E) :=
   | (let (_, _) := alloc ?hh ?nn in _) = _ => destruct (alloc hh nn) as [h l] eqn:E
   end.
 
-Definition fresh_ref (b : nat) (v : val) : Prop := match v with VA _ => True | VR l => b <= l end.
 
 Lemma append_item_get : forall h l v h', append_item h l v = Some h' ->
   exists xs, get h l = Some (NList xs) /\ get h' l = Some (NList (xs ++ [v])).
 Proof.
   unfold append_item. intros h l v h' H.
   destruct (get h l) as [[m|xs|c fs|m]|] eqn:E; inversion H. exists xs. split; auto.
-  apply get_upd_same. eapply get_lt; eauto.
-Qed.
-
-Lemma set_item_get_dict : forall h l k v h' m, set_item h l k v = Some h' -> get h l = Some (NDict m) ->
-  get h' l = Some (NDict (assoc_set k v m)).
-Proof.
-  unfold set_item. intros h l k v h' m H E. rewrite E in H. inversion H.
   apply get_upd_same. eapply get_lt; eauto.
 Qed.
 
